@@ -151,6 +151,9 @@ func modelOp(op fx.Op) ref.ProbeOp {
 			m.Val = &v
 		case "overrideService":
 			m.Str = op.Val.S
+			if op.Val.K == "ctx" {
+				m.Scope = "contextual"
+			}
 		}
 	}
 	return m
